@@ -120,9 +120,13 @@ def check_method(ctx, m):
         want_attr = {} if d is spec_table.TABLE else d
         if an in sig.parameters:
             dflt = sig.parameters[an].default
-            want_param = None if d is spec_table.TABLE else d
-            fact(ctx, subject, 'signature default of ' + an,
-                 canon(want_param), canon(dflt))
+            if d is spec_table.TABLE:
+                # "no table" may be spelled None or {} in the signature
+                fact(ctx, subject, 'signature default of ' + an +
+                     ' is None or {}', True, dflt is None or dflt == {})
+            else:
+                fact(ctx, subject, 'signature default of ' + an,
+                     canon(d), canon(dflt))
         if inst is not None:
             fact(ctx, subject, 'default attribute value of ' + an,
                  canon(want_attr), canon(getattr(inst, an, 'MISSING')))
@@ -132,6 +136,35 @@ def check_method(ctx, m):
         else:
             fact(ctx, subject, 'documented default of ' + an,
                  doc_literal(d), docs.get(an))
+    # the defaults are still the specification's after an earlier default-
+    # constructed instance (and a decoded one) had its tables changed
+    if inst is not None:
+        tables = [an for an, wt, d in m.args if d is spec_table.TABLE]
+        for an in tables:
+            getattr(inst, an)['x-injected'] = 'stale'
+        if tables:
+            try:
+                again = cls()
+                for an in tables:
+                    fact(ctx, subject, 'default of {} after another '
+                         'instance\'s table was changed'.format(an),
+                         canon({}), canon(getattr(again, an, 'MISSING')))
+                    fact(ctx, subject, 'default {} objects are distinct '
+                         'per instance'.format(an), True,
+                         getattr(again, an, None) is not getattr(inst, an))
+                vec = corpus.default_vector(m)
+                wire, _f = refcodec.enc_method_frame(m, vec, 1)
+                dec = p.frame.unmarshal(wire)[2]
+                for an in tables:
+                    getattr(dec, an)['x-injected'] = 'stale'
+                third = cls()
+                for an in tables:
+                    fact(ctx, subject, 'default of {} after a decoded '
+                         'frame\'s table was changed'.format(an),
+                         canon({}), canon(getattr(third, an, 'MISSING')))
+            except Exception as exc:  # noqa
+                fact(ctx, subject, 'default construction repeats', True,
+                     repr(exc))
     # behavioural: own encoding starts with (class<<16)|method, decodes back
     if inst is not None:
         vec = corpus.default_vector(m)
@@ -197,6 +230,9 @@ def check_properties(ctx):
     fact(ctx, subject, 'constructor parameters',
          [n for n, _t, _b in spec_table.PROPERTIES],
          [n for n in sig.parameters if n != 'self'])
+    first = cls()
+    first.headers = {'x': 1}
+    first.app_id = 'stale'
     inst = cls()
     for n, _t, _b in spec_table.PROPERTIES:
         want = spec_table.PROPERTY_DEFAULTS[n]
